@@ -37,6 +37,9 @@ pub struct Case {
     /// Mode::StreamIncomplete: how many input bytes are fed
     #[serde(default)]
     pub prefix: usize,
+    /// Mode::StreamIncomplete: use the 5-byte header with UseProvided(size)
+    #[serde(default)]
+    pub h5: bool,
 }
 
 #[derive(Clone, Debug)]
@@ -57,9 +60,25 @@ pub struct C10;
 impl C10 {
     /// allow_incomplete: the limit applies to what is actually produced from the prefix
     fn judge_incomplete(&self, c: &Case, st: &mut LocalStats, file: &[u8], expected: &[u8], d: u64) -> Judgement {
+        // 5-byte header variant: drop the size field, provide the size through the option
+        let h5file: Vec<u8>;
+        let (file, mut opts) = if c.h5 {
+            let mut f = file[..5].to_vec();
+            f.extend_from_slice(&file[13..]);
+            h5file = f;
+            (&h5file[..], Opts::with(USize::UseProvided(if c.with_size { Some(expected.len() as u64) } else { None })))
+        } else {
+            (file, Opts::with(USize::ReadFromHeader))
+        };
         let input = &file[..c.prefix.min(file.len())];
-        let script: Vec<sut::Call> = c.pieces.iter().map(|p| sut::Call::Write(*p)).collect();
-        let mut opts = Opts::with(USize::ReadFromHeader);
+        // tiny pieces for tiny inputs (header staged over several writes)
+        let script: Vec<sut::Call> = if c.h5 && input.len() <= 18 {
+            st.class("incomplete: 5-byte header, whole input <= 18 bytes");
+            let first = 1 + (c.m as usize % 9).min(input.len().saturating_sub(1));
+            vec![sut::Call::Write(first), sut::Call::Write(input.len())]
+        } else {
+            c.pieces.iter().map(|p| sut::Call::Write(*p)).collect()
+        };
         opts.allow_incomplete = true;
         st.evals(2);
         let free = sut::stream_run(input, &opts, &script, &SinkCfg::default(), false);
@@ -146,7 +165,7 @@ impl Property for C10 {
         tier.pick(200_000, 2_000_000)
     }
     fn strategy(&self, tier: Tier) -> BoxedStrategy<Abs> {
-        let big = tier.pick(60_000usize, 300_000);
+        let big = tier.pick(3usize << 20, 3usize << 20);
         let mode = prop_oneof![
             3 => (Just(Mode::OneShotHeader), dict_header()),
             3 => (Just(Mode::OneShotRaw), dict_raw()),
@@ -156,7 +175,17 @@ impl Property for C10 {
         (
             props_any(),
             mode,
-            prop_oneof![3 => abs_program(30, 20), 2 => abs_program(60, 300)],
+            prop_oneof![
+                30 => abs_program(30, 20),
+                20 => abs_program(60, 300),
+                // needed window beyond 1 MiB (and beyond 2 MiB)
+                1 => (abs_program(6, 6), 4000u16..9000, any::<u16>()).prop_map(|(mut p, k, dsel)| {
+                    p.insert(0, AbsOp::Lit(LitKind::Given, k as u8));
+                    p.insert(1, AbsOp::Lit(LitKind::Noise, 5));
+                    p.insert(2, AbsOp::Run { k, op: Box::new(AbsOp::Match { dclass: 6, dsel, lclass: 6, lsel: 0 }) });
+                    p
+                }),
+            ],
             any::<bool>(),
             0u8..14,
             any::<u16>(),
@@ -194,7 +223,12 @@ impl Property for C10 {
         let mut prefix = n;
         let mut need = need;
         if a.mode == Mode::StreamIncomplete {
-            prefix = pick(a.m_sel.rotate_left(5), 18.min(n as u64), n as u64) as usize;
+            prefix = if a.m_sel % 3 == 0 && a.m_class % 2 == 0 {
+                // whole (short) input at most 26 bytes: 18 after dropping the 8 size bytes
+                pick(a.m_sel.rotate_left(5), 18.min(n as u64), 26.min(n as u64)) as usize
+            } else {
+                pick(a.m_sel.rotate_left(5), 18.min(n as u64), n as u64) as usize
+            };
             let idx = sym_ends.partition_point(|e| *e + 40 <= prefix);
             let produced = if idx == 0 { 0 } else { enc.table[idx - 1].produced };
             need = d.min(produced);
@@ -211,6 +245,7 @@ impl Property for C10 {
             m_class: m_class.to_string(),
             pieces,
             prefix,
+            h5: a.mode == Mode::StreamIncomplete && a.m_sel % 3 == 0,
         }
     }
     fn rule(&self) -> String {
@@ -231,6 +266,8 @@ impl Property for C10 {
             ("expect:Ok", 5000 * k),
             ("window grows inside a copy past the limit", 300 * k),
             ("mode:StreamIncomplete", 5000 * k),
+            ("needed window > 1 MiB", 300 * k),
+            ("incomplete: 5-byte header, whole input <= 18 bytes", 200 * k),
             ("incomplete: limit between produced and announced size", 300 * k),
         ]
     }
@@ -257,6 +294,9 @@ impl Property for C10 {
         st.class(if expect_ok { "expect:Ok" } else { "expect:Err" });
         if l > d {
             st.class("L>D (window wraps)");
+        }
+        if need > (1 << 20) {
+            st.class("needed window > 1 MiB");
         }
         // does the window first exceed m during a copy (not on a literal)?
         if !expect_ok {
